@@ -204,6 +204,49 @@ theorem listUpTo_valid (m : Nat) (c : Codec α) (l : List α) :
   · rintro ⟨⟨⟨a, _⟩, b⟩, c⟩; exact ⟨⟨a, b⟩, c⟩
   · rintro ⟨⟨a, b⟩, c⟩; exact ⟨⟨⟨a, by omega⟩, b⟩, c⟩
 
+-- what `valid` asks of the later payload classes, spelled out
+theorem filterRange_valid (t : Nat × Nat × Bytes) :
+    filterRange.valid t ↔ t.1 < 256 ∧ t.2.1 < 2 ^ 32 ∧ t.2.2.length = 32 := by
+  simp only [filterRange, pair, uintLE_valid, revBytesN_valid]
+
+theorem cfilter_valid (t : Nat × Bytes × Bytes) :
+    cfilter.valid t ↔ t.1 < 256 ∧ t.2.1.length = 32 ∧ t.2.2.length ≤ Gen.VarInt.MAX_SIZE := by
+  simp only [cfilter, pair, uintLE_valid, revBytesN_valid, varBytes_valid]
+
+theorem getcfcheckpt_valid (t : Nat × Bytes) : getcfcheckpt.valid t ↔ t.1 < 256 ∧ t.2.length = 32 := by
+  simp only [getcfcheckpt, pair, uintLE_valid, revBytesN_valid]
+
+theorem cfheaders_valid (t : Nat × Bytes × Bytes × List Bytes) :
+    cfheaders.valid t ↔ t.1 < 256 ∧ t.2.1.length = 32 ∧ t.2.2.1.length = 32 ∧
+      (t.2.2.2.length ≤ Gen.VarInt.MAX_SIZE ∧ t.2.2.2.length ≤ Gen.Wire.MAX_GETCFHEADERS_SIZE) ∧
+      ∀ x ∈ t.2.2.2, x.length = 32 := by
+  unfold cfheaders
+  simp only [pair, uintLE_valid, revBytesN_valid, listUpTo_valid]
+
+theorem cfcheckpt_valid (t : Nat × Bytes × List Bytes) :
+    cfcheckpt.valid t ↔ t.1 < 256 ∧ t.2.1.length = 32 ∧
+      (t.2.2.length ≤ Gen.VarInt.MAX_SIZE ∧ t.2.2.length < 2 ^ 64) ∧ ∀ x ∈ t.2.2, x.length = 32 := by
+  unfold cfcheckpt
+  simp only [pair, uintLE_valid, revBytesN_valid, listOf_valid]
+
+theorem locator_valid (t : Int × List Bytes × Bytes) :
+    locator.valid t ↔ (-(2 ^ 31 : Int) ≤ t.1 ∧ t.1 < 2 ^ 31) ∧
+      ((t.2.1.length ≤ Gen.VarInt.MAX_SIZE ∧ t.2.1.length ≤ Gen.Wire.MAX_LOCATOR_SZ) ∧ ∀ x ∈ t.2.1, x.length = 32) ∧
+      t.2.2.length = 32 := by
+  unfold locator
+  simp only [pair, intLE4_valid, revBytesN_valid, listUpTo_valid]
+
+theorem versionBody_valid (v : Version) :
+    versionBody.valid v ↔ (-(2 ^ 31 : Int) ≤ v.version ∧ v.version < 2 ^ 31) ∧ v.services < 2 ^ 64 ∧
+      (-(2 ^ 63 : Int) ≤ v.timestamp ∧ v.timestamp < 2 ^ 63) ∧ netAddr.valid v.addrRecv ∧ netAddr.valid v.addrFrom ∧
+      v.nonce < 2 ^ 64 ∧ v.userAgent.length ≤ Gen.VarInt.MAX_SIZE ∧
+      (-(2 ^ 31 : Int) ≤ v.startHeight ∧ v.startHeight < 2 ^ 31) := by
+  unfold versionBody
+  simp only [Codec.map, pair, intLE4_valid, intLE8_valid, uintLE_valid, varBytes_valid]
+  constructor
+  · rintro ⟨⟨a, b, c, d, e, f, g, h⟩, _⟩; exact ⟨a, by omega, c, d, e, by omega, g, h⟩
+  · rintro ⟨a, b, c, d, e, f, g, h⟩; exact ⟨⟨a, by omega, c, d, e, by omega, g, h⟩, trivial⟩
+
 /-- a headers payload never carries a non-zero transaction count -/
 theorem zeroCount_ser (u : Unit) : zeroCount.ser u = [0] := rfl
 
